@@ -310,12 +310,12 @@ def evaluate(mod, cases, modes, tier, timeout_s=None):
         for mode, res in ex.map(do_mode, modes):
             for i, r in res.items():
                 recs[i]['impl'][mode] = canon_impl(r)
-    # a HANG the model does not predict may be a watchdog expiry on a loaded machine: re-run those cases (at most 60 per
+    # a HANG the model does not predict may be a watchdog expiry on a loaded machine: re-run those cases (at most 8 per
     # mode) on their own with a ten times longer limit before they are judged
     retried = 0
     for mode in modes:
         again = [(i, r['case'], 10 * timeout_s) for i, r in enumerate(recs)
-                 if r['impl'].get(mode) == 'HANG' and r['model'] != 'FUEL'][:60]
+                 if r['impl'].get(mode) == 'HANG' and r['model'] != 'FUEL'][:8]
         if again:
             retried += len(again)
             res = run_impl(mod.PROP, mode, again, min(4, nchild), 10 * timeout_s, getattr(mod, 'EXTRA_ENV', None))
